@@ -26,6 +26,7 @@ import PoetryVerif.Proofs.MarkerAlgSoundInvLists
 import PoetryVerif.Proofs.MarkerAlgSoundFullC
 import PoetryVerif.Proofs.MarkerAlgSoundPrC
 import PoetryVerif.Proofs.MarkerAlgSoundFull4
+import PoetryVerif.Proofs.MarkerAlgSoundFullL
 import PoetryVerif.Proofs.PyConvPairFinal
 import PoetryVerif.Proofs.PyConvPairCompat
 import PoetryVerif.Proofs.MarkerPrint
@@ -769,6 +770,47 @@ example : Str4Leaf (fun v => v = "ab") Ex.envAB
     Or.inr ⟨"sys_platform", "not in", .nc, "ab", by decide, by decide, tk _ (by decide) (by decide),
       ⟨"a", rfl⟩, fun _ => rfl, rfl⟩, by decide⟩
 
+/-! ### version lists on `python_version` -/
+
+/-- **The leaf facts on `python_version` with the seven operators and `in` / `not in` lists, no hypothesis and no
+exception class**: the constraint string `SingleMarker.__init__` builds for `python_version in "X0.Y0 X1.Y1 …"`
+(`X0.Y0.* || X1.Y1.* || …`; for `not in`: `!=X0.Y0.*, !=X1.Y1.*, …`) is the very text
+`normalize_python_version_markers` prints for the leaf, and the constraint parser reads it as a constraint of the
+regular setting over two-component Python bounds (`parse_list_reg`, through C11's `parse_groups`/`parse_groupsE`);
+so the leaf's clause and its conversion coincide and the abstract-operand merge theorem applies — every branch of
+`_merge_single_markers`, including the two special `python_version` branches. -/
+theorem leafSpec_python_version_lists {X Y : Nat} (hE : E.get? "python_version" = some (Version.relText [X, Y])) :
+    LeafSpec (leafEval E) PvLeafL := leafSpec_pvL hE
+
+/-- the list leaves are what the constructor builds from `in` / `not in` and a list of `X.Y` tokens separated by
+runs of blanks, commas and bars -/
+theorem python_version_list_built (isIn : Bool) (p0 : Nat × Nat) (rest : List (String × (Nat × Nat)))
+    (hs : ∀ q ∈ rest, SepRun q.1) :
+    ∃ s, mkSingle "python_version" (listOp isIn ++ verList2 p0 rest) false = .ok s ∧ PvListLeaf (.single s) :=
+  pvListLeaf_built isIn p0 rest hs
+
+/-- **Intersection and union with `python_version` lists, no unproved hypothesis**, on markers without
+`python_full_version` leaves: string leaves with the four operators, `extra`, `python_version` with the seven
+operators and lists, `platform_release`.  (With `python_full_version` leaves the list leaves need the pairing
+`PairSound (leafEval E) PvLeafL Pfv3LeafC` — `leafSpec_pyL`; not proved: the constructor on the printed text of a
+general union of ranges is not covered by the text lemmas.  No counterexample is known; the real code passes the
+exhaustive replay of the 26 × 30 leaf pairs of the neighbourhood.) -/
+theorem intersect_union_sound_lists {C : String → Prop}
+    (hC : ∀ u v, C u → C v → Generic.strIn u v = true ∨ Generic.strIn v u = true)
+    {B : List Version} (hpb : ∀ e ∈ B, PyBound e = true)
+    {ex : List String} (hX : E.extras = some ex) {X Y : Nat}
+    (hE : E.get? "python_version" = some (Version.relText [X, Y])) {P : Nat} {Q : List Nat}
+    (hP : E.get? "platform_release" = some (Version.relText (P :: Q))) {a b r : M}
+    (ha : M.Good (FullLeafL C B E) a) (hb : M.Good (FullLeafL C B E) b) :
+    (mIntersect fuel stk a b = .ok r →
+      M.Good (FullLeafL C B E) r ∧ M.validate E r = .ok (holds E a && holds E b)) ∧
+    (mUnion fuel stk a b = .ok r →
+      M.Good (FullLeafL C B E) r ∧ M.validate E r = .ok (holds E a || holds E b)) := by
+  have S := leafSpec_fullL hC hpb hX hE hP
+  have hev : ∀ l, FullLeafL C B E l → ∃ b, l.validate E = .ok b := fun l hl => fullLeafL_evaluable hpb hX hE hP hl
+  exact ⟨fun h => by have := intersect_sound_partial S hev ha hb h; exact ⟨this.1, this.2.2⟩,
+    fun h => by have := union_sound_partial S hev ha hb h; exact ⟨this.1, this.2.2⟩⟩
+
 /-- **Inversion preserves truth on every marker of single markers in C06's agreement domain** — no closure
 under merging is needed (inversion never merges), so this covers item classes outside the intersect/union
 domain: a marker all of whose leaves are built from items that agree with the PEP 508 reference evaluator
@@ -825,13 +867,45 @@ theorem empty_any_full {ex : List String} (hX : E.extras = some ex) {X Y Z : Nat
   ⟨fun h he => empty_never_true_partial (leafSpec_full hX hE (pairSound_py hE)) ha hb h he,
    fun h he => any_always_true_partial (leafSpec_full hX hE (pairSound_py hE)) ha hb h he⟩
 
-/-- the leaf facts for EVERY leaf the constructor builds, as one visible statement.  Proved above for: `==`/`!=`
-leaves on the string variables and `extra` over plain values (with the atomic multi/union leaves merges build),
-the six comparison operators on `python_version "X.Y"`, `python_full_version "X.Y.Z"` (including the pairing)
-and `platform_release` release numbers.  Not covered: `~=`, `in`/`not in` and `===` leaves, reversed-operand
-leaves, version literals of other shapes (pre-releases, wildcards, other component counts), alias spellings.
-The statement as a whole is false: `in`/`not in` atoms on string variables violate it
-(`union_notin_notin_counterexample`). -/
+/-- the leaf facts for EVERY leaf the constructor builds, as one visible statement.
+
+**Proved above (no unproved hypothesis)**, in an environment of a final-release interpreter `X.Y.Z` that defines
+the extras (and, where used, a release-number `platform_release`):
+* string variables (canonical names; alias spellings give the same leaves): `==`, `!=`, `"v" in name`,
+  `"v" not in name`, plain values — `not in` values pairwise comparable by containment;
+* `extra == / !=`, plain values;
+* `python_version` with `== != < <= > >= ~=` and a literal `X.Y`, and `in` / `not in` lists of `X.Y` tokens;
+* `python_full_version` with the seven operators and a literal `X.Y.Z` (`X` / `X.Y` are padded by the
+  constructor to `X.0.0` / `X.Y.0` and land here), including the pairing with `python_version` for the seven
+  operators;
+* `platform_release` with the seven operators and a release number of one to three components.
+
+**Outside the domain — the boundary, one witness each** (replayed on the real code; F = the property is false
+there, U = unproved, no counterexample known, E = an exception instead of a marker):
+1. F `not in` ∪ `not in` with incomparable values: `"tegra" not in platform_release or "rpi" not in platform_release`
+   is the universal marker (`notin_union_boundary`; known finding `notin-union-notin-any`).
+2. F `python_version` with a literal of three or more components:
+   `(python_full_version != "3.8.1").intersect(python_version < "3.8.1")` is `python_version < "3.8.1"`, true on
+   3.8.1 where the first operand is false (the conversion reads the literal as a full version).
+3. F `python_version` with a one-component literal:
+   `(python_version == "3").union(python_full_version != "3.8.0")` is the universal marker, both operands false on
+   3.8.0.
+4. E pre-release literal of two components on `python_full_version`:
+   `(python_full_version == "3.8b1").intersect(python_version != "3.9")` raises `InvalidMarkerError`
+   (`3.8b1` padded to `3.8b1.0`).
+5. F pre-release interpreter (`python_full_version = "3.9.0rc1"`, outside `EnvPy`):
+   `(python_full_version < "3.9.0").invert()` is `python_full_version >= "3.9.0"`, both false there (PEP 440's
+   exclusive `<`); `(python_version > "3.8").intersect(python_full_version == "3.9.0rc1")` is empty, both true.
+6. U pre-release / post / dev / local literals with three components, four-component literals on
+   `python_full_version`, wildcard literals `== "3.8.*"` / `!= "3.8.*"` (the lists are their sugar), `===`.
+7. U `python_version` lists together with `python_full_version` leaves (pairing `PairSound … PvLeafL Pfv3LeafC`),
+   lists on `python_full_version` (known finding `pfv-list-two-component` for two-component tokens), `in` /
+   `not in` lists on string variables as single leaves (inversion is proved: `lists_ready_to_invert`).
+8. U reversed operands on the version variables (`"3.8" <= python_version`), string values with white space,
+   quotes, `|`, `,` or a leading `=` (known finding `generic-literal-whitespace`), `extra` with `in`/`not in`
+   (rejected by the constructor), a `platform_release` that is not a version (`unmodelled`), inversion of an
+   `extra` atomic union with repeated values.
+The statement as a whole is false (items 1–3, 5). -/
 def C07_leaf_facts_full_statement : Prop :=
   ∀ E : Env, ∃ G : Leaf → Prop, (∀ l, ParsedLeaf l → (∃ b, l.validate E = .ok b) → G l) ∧
     LeafSpec (leafEval E) G ∧ LeafInvertSound (leafEval E) G
